@@ -8,11 +8,14 @@ QuoteJSONString / InternalizeJSONProperty over a model of JS values):
      of the escapes, white space, U+0001, U+2028, a lone surrogate, e-acute)                       L = 4 quick / 5 thorough
  (b) every sequence of <= K tokens over 21 tokens (incl. "__proto__", "\\ud800" escape, 1e400, 1E-400, 01, 1., .5, NaN);
      every accepted text is also parsed with three revivers (identity / deleting / sibling-replacing) that log
-     (key, value, holder, context.source)                                                           K = 4 quick / 6 thorough
- (c) nesting depth 1..2000 of `[` and `{"a":` through parse and stringify (no crash; correct up to depth 64)
+     (key, value, holder); the third argument (context.source) is logged and only counted as information: it is
+     not part of the property                                                                      K = 4 quick / 6 thorough
+ (c) nesting depth 1..2000 of `[` and `{"a":` through parse and stringify (no crash; correct up to depth 64); quick: every depth
+     up to 160, then a grid of 27 depths up to 2000
  (d) every JSON value of <= N nodes over 12 scalars and 5 keys with duplicate keys, as text: parse, stringify, re-parse,
      re-stringify, three revivers; plus 12 hand-written deeper texts                                  N = 3 quick / 4 thorough
- (e) stringify: those values (built by JS literals) x 3 replacers x 6 indents (3 for the 4-node layer), and 34 special inputs
+ (e) stringify: those values (built by JS literals) x 3 replacers x 6 indents (3 indents for the largest layer of the tier),
+     and 34 special inputs
      x 3 replacers x 18 indents
  (g) every UTF-16 code unit: raw inside a string, as white space, after a backslash, as \\uXXXX (both hex cases), through
      QuoteJSONString; all strings of <= 3 units over {A, D800, DBFF, DC00, DFFF, 2028} through stringify and back
@@ -195,6 +198,9 @@ class State:
         self.accepted = 0
         self.rejected = 0
         self.nreported = 0
+        self.source_diffs = 0
+        self.source_compared = 0
+        self.source_samples = []
 
     def part(self, name):
         return self.parts.setdefault(name, {"cases": 0, "engine_ops": 0, "compared": 0, "accepted": 0, "mismatching_cases": 0})
@@ -252,8 +258,9 @@ def compare(st, name, desc, res, exp):
     ncases = (desc["hi"] - desc["lo"]) if "hi" in desc else len(desc.get("texts", desc.get("vals", [])))
     part["cases"] += ncases
     part["engine_ops"] += ncases if k == "parse" else 0
-    part["engine_ops"] += sum(1 for l in lines if not l.startswith(("N ", "V ") if k != "parse" else ("N ", "A ", "X ")))
-    part["compared"] += (ncases if k == "parse" else 0) + sum(1 for l in exp if not l.startswith(("N ", "A ") if k == "parse" else ("N ",)))
+    part["engine_ops"] += sum(1 for l in lines if not l.startswith(("N ", "V ", "C") if k != "parse" else ("N ", "A ", "X ", "C")))
+    part["compared"] += (ncases if k == "parse" else 0) + sum(1 for l in exp if not l.startswith(("N ", "A ", "C") if k == "parse" else ("N ", "C")))
+    st.source_compared += sum(1 for l in exp if l.startswith("C"))
     if comp != "Value undefined":
         part["mismatching_cases"] += 1
         d = dict(desc)
@@ -283,8 +290,20 @@ def compare(st, name, desc, res, exp):
             continue
         if idx < 0:
             continue  # the N line: implied by the per-text differences
-        part["mismatching_cases"] += 1
         text = text_of(desc, idx)
+        # the reviver's third argument is not part of the property: differences are counted, never reported
+        ca, cb = [x for x in (a or []) if x[0].startswith("C")], [x for x in (b or []) if x[0].startswith("C")]
+        a, b = [x for x in (a or []) if not x[0].startswith("C")] or None, [x for x in (b or []) if not x[0].startswith("C")] or None
+        if a == b or (a is not None and b is not None and _outcome(a, "") == _outcome(b, "")):
+            # same parse outcome: the C lines are comparable call by call
+            for (ta, va), (tb, vb) in zip(ca, cb):
+                if va != vb:
+                    st.source_diffs += 1
+                    if len(st.source_samples) < 5:
+                        st.source_samples.append({"text": J.qs(text), "reviver": ta, "observed": va[:200], "proposal": vb[:200]})
+        if a == b:
+            continue
+        part["mismatching_cases"] += 1
         sd = single(desc, idx)
         if k in ("parse", "values"):
             oa, ob = _outcome(a, absent), _outcome(b, "err SyntaxError")
@@ -360,8 +379,8 @@ EXTRA_TEXTS = [
 
 
 def depth_list_quick():
-    """every depth up to 260 (covers the 64 that must work and the engine's observed cut at 128), then a coarser grid up to 2000"""
-    return list(range(1, 261)) + list(range(300, 1000, 50)) + list(range(1000, DEPTH_MAX + 1, 100))
+    """every depth up to 160 (covers the 64 that must work and the engine's observed cut at 128), then a coarser grid up to 2000"""
+    return list(range(1, 161)) + list(range(200, 1000, 50)) + list(range(1000, DEPTH_MAX + 1, 100))
 
 
 def build_families(tier, src_ctx):
@@ -392,7 +411,7 @@ def build_families(tier, src_ctx):
     de, base = [], 0
     for n in range(T["EN"]):
         for lo, hi in ranges(len(vt[n]), 150):
-            de.append({"k": "strval", "vals": vt[n][lo:hi], "base": base + lo, "inds": C.INDS_SUB if n >= 3 else C.INDS_MAIN})
+            de.append({"k": "strval", "vals": vt[n][lo:hi], "base": base + lo, "inds": C.INDS_SUB if n + 1 >= T["EN"] and n >= 2 else C.INDS_MAIN})
         base += len(vt[n])
     fams.append(("e-stringify-values", de))
     fams.append(("e-stringify-specials", [{"k": "strspecial", "lo": i, "hi": i + 1} for i in range(len(C.SPECIALS))]))
@@ -503,6 +522,8 @@ def run(chk):
     chk.cov["distinct_outcomes"] = len(st.outcomes) + 1
     chk.cov["parse_texts"] = {"accepted_by_reference": st.accepted, "rejected_by_reference": st.rejected}
     chk.cov["context_source_probe"] = src_ctx
+    # informational only (JSON.parse source text access proposal; not part of C18): reviver calls whose context.source differs from the proposal's
+    chk.cov["source_arg_differences"] = {"reviver_runs_compared": st.source_compared, "runs_differing": st.source_diffs, "samples": st.source_samples}
     chk.cov["depth"] = {"max": DEPTH_MAX, "must_work_up_to": DEPTH_MUST,
                         "first_non_ok": {k: {"depth": v[0], "observed": v[1]} for k, v in sorted(st.first_depth_fail.items())}}
     chk.cov["bounds"] = dict(T, alphabet=len(J.ALPHABET), tokens=len(J.TOKENS), scalars=len(J.SCALARS), keys=len(J.KEYS), specials=len(C.SPECIALS))
@@ -522,8 +543,8 @@ def run(chk):
     chk.sample({"family": "e", "input": C.SPECIALS[6][0], "expected_lines": C.exp_stringify_model(C.SPECIALS[6][3], 6, False, [0, 2])[:3]})
     chk.assumptions += [
         "the reference (vlib/c18_json.py) is the specification: ECMA-404 grammar, correctly rounded decimal->double via Python float(), ES2024 "
-        "JSON.stringify incl. well-formed escaping, InternalizeJSONProperty with the parse records of the JSON.parse-source-text proposal "
-        "(compared only because the engine passes a context object: probe)",
+        "JSON.stringify incl. well-formed escaping, InternalizeJSONProperty (reviver walk: key, value, holder). The reviver's third argument "
+        "(context.source, JSON.parse-source-text proposal) is outside the property: it is logged and only counted in source_arg_differences",
         "nesting deeper than %d may be refused with a JS exception or runtime limit (never a crash); the first refusing depth is recorded" % DEPTH_MUST,
         "texts longer than the bounds, other alphabets, JSON.rawJSON/isRawJSON, revivers that throw, replacers that mutate are not decided",
         "the dump uses DataView/Reflect/Object.getOwnPropertyDescriptor of the engine under test as observers",
